@@ -112,6 +112,11 @@ func generate(prop, tier string, seed uint64, run int) *Scenario {
 		}
 		return genLifecycle(prop, seed, run, tier, 0, 0.12)
 	case "C10":
+		if pick >= 94 {
+			// recursive watches: directories created, renamed and removed faster than
+			// the reader registers them (found the ENOENT of the recursive branch)
+			return genRecurse(prop, seed, run, tier)
+		}
 		if pick < 70 {
 			return genLifecycle(prop, seed, run, tier, 0, 0.25)
 		}
